@@ -1116,7 +1116,7 @@ struct Exec
 	{	if (!t.sf) { r.skipped = true ; return ; }
 		SF_INSTRUMENT i ; memset (&i, 0, sizeof (i)) ;
 		int64_t st = op.geti ("stream", 1) ;
-		i.gain = (int) (mix3 (key, st, 1) % 12) ; i.basenote = (char) (mix3 (key, st, 2) % 128) ; i.detune = (char) (mix3 (key, st, 3) % 50) ;
+		i.gain = (int) (mix3 (key, st, 1) % 12) ; i.basenote = (char) (mix3 (key, st, 2) % 128) ; i.detune = (char) (mix3 (key, st, 3) % 100) ;
 		i.velocity_lo = (char) (mix3 (key, st, 4) % 64) ; i.velocity_hi = (char) (64 + mix3 (key, st, 5) % 64) ; i.key_lo = (char) (mix3 (key, st, 6) % 64) ; i.key_hi = (char) (64 + mix3 (key, st, 7) % 64) ;
 		int64_t nl = op.geti ("loops", 1) ; if (nl < 0) nl = 0 ; if (nl > 16) nl = 16 ;
 		i.loop_count = (int) nl ;
@@ -1327,7 +1327,9 @@ struct Exec
 	// storage corruption between a close and the next open
 	void op_corrupt (Task &t, const J &op, Rec &r)
 	{	r.api = "corrupt" ; r.skipped = true ;
-		SimFileP f = store_file (op.gets ("file", t.store.empty () ? "f" + std::to_string (t.id) + ".dat" : t.store)) ;
+		std::string target = op.gets ("file", t.store.empty () ? "f" + std::to_string (t.id) + ".dat" : t.store) ;
+		if (op.geti ("rsrc", 0) && os.ns.count ("/sim/cwd/._" + target)) { sm [target].corrupted = true ; target = "._" + target ; }
+		SimFileP f = store_file (target) ;
 		StoreModel &m = sm [f->name.substr (9)] ;
 		m.corrupted = true ;
 		std::vector<uint8_t> &d = f->data ;
@@ -1350,6 +1352,15 @@ struct Exec
 			else if (kind == "field")
 			{	int w = (int) e.geti ("width", 4) ; int64_t val = e.geti ("val", 0) ; bool be = e.geti ("be", 0) != 0 ;
 				for (int b = 0 ; b < w && off + b < sz ; b++) d [off + b] = (uint8_t) (val >> (8 * (be ? w - 1 - b : b))) ;
+			}
+			else if (kind == "field_via")
+			{	// structure aware: overwrite a field located relative to an offset that is itself stored in the file
+				int64_t po = e.geti ("ptr_off", 0) ; int pw = (int) e.geti ("ptr_width", 4) ; bool pbe = e.geti ("ptr_be", 1) != 0 ;
+				if (po >= 0 && po + pw <= sz)
+				{	int64_t base = 0 ; for (int b = 0 ; b < pw ; b++) base |= (int64_t) d [po + (pbe ? b : pw - 1 - b)] << (8 * (pw - 1 - b)) ;
+					int64_t at = base + e.geti ("delta", 0) ; int w = (int) e.geti ("width", 2) ; int64_t val = e.geti ("val", 0) ; bool be = e.geti ("be", 1) != 0 ;
+					for (int b = 0 ; b < w && at >= 0 && at + b < sz ; b++) d [at + b] = (uint8_t) (val >> (8 * (be ? w - 1 - b : b))) ;
+				}
 			}
 			else if (kind == "truncate") { if (sz) d.resize ((size_t) where (e.geti ("len", 0), e.gets ("region", "any"))) ; }
 			else if (kind == "zero") { int64_t n = e.geti ("len", 512) ; for (int64_t b = 0 ; b < n && off + b < sz ; b++) d [off + b] = 0 ; }
@@ -1499,7 +1510,7 @@ struct Exec
 		else if (kind == "seek_out_of_range" || kind == "seek_bad_whence") applicable = t.seekable ;
 		else if (kind == "seek_nonseekable") applicable = !t.seekable ;
 		else if (kind == "setstr_read_handle") applicable = t.mode == SFM_READ ;
-		else if (kind == "setstr_bad_type" || kind == "setstr_null") applicable = t.mode != SFM_READ ;
+		else if (kind == "setstr_bad_type" || kind == "setstr_null" || kind == "setstr_empty") applicable = t.mode != SFM_READ ;
 		else if (kind == "cmd_after_data") applicable = t.mode != SFM_READ && t.wr > 0 && t.fmt && (t.fmt->is_float || t.fmt->is_double) && peak_capable (*t.fmt) ;
 		if (!applicable) { r.skipped = true ; return ; }
 		Snap s0 = snap (t) ;
@@ -1541,6 +1552,7 @@ struct Exec
 		else if (kind == "setstr_read_handle") { ret = sf_set_string (t.sf, SF_STR_TITLE, "title") ; ret_is_code = true ; }
 		else if (kind == "setstr_bad_type") { ret = sf_set_string (t.sf, 0x77, "text") ; ret_is_code = true ; }
 		else if (kind == "setstr_null") { ret = sf_set_string (t.sf, SF_STR_TITLE, nullptr) ; ret_is_code = true ; }
+		else if (kind == "setstr_empty") { static const int ty [] = { SF_STR_TITLE, SF_STR_ARTIST, SF_STR_COMMENT, SF_STR_COPYRIGHT } ; ret = sf_set_string (t.sf, ty [op.geti ("n", 0) & 3], "") ; ret_is_code = true ; }
 		else if (kind == "setchunk_null") { ret = sf_set_chunk (t.sf, nullptr) ; ret_is_code = true ; }
 		else { os.end_op () ; free (buf) ; r.skipped = true ; return ; }
 		r.ret = ret ; r.err = sf_error (t.sf) ;
